@@ -10,6 +10,8 @@ mod c14;
 mod c05;
 mod c11;
 mod c10;
+mod c03;
+mod vp8lbits;
 mod animgen;
 mod webpfile;
 mod oracle;
@@ -79,6 +81,7 @@ fn main() {
         "C05" => c05::run(&o),
         "C11" => c11::run(&o),
         "C10" => c10::run(&o),
+        "C03" => c03::run(&o),
         _ => {
             eprintln!("unknown property {prop}");
             std::process::exit(2);
